@@ -151,7 +151,8 @@ def apply_ops(rep, fns):
         ok = False
         if len(traj) == 1:
             t = traj[0]
-            size_ok = decls[t][1].endswith("{$1.point_count()}") or decls[t][1] == "$1.point_count()" or "$1.point_count()" in decls[t][1] and decls[t][1].count("(") <= 3
+            m = re.search(r"\{(.*)\}$", decls[t][1])
+            size_ok = (m.group(1) if m else decls[t][1]) == "$1.point_count()"
             calls = [rn(R.key(x)) for x, p in R.find(f["body"], lambda x: x.get("k") == "Call" and x.get("op") == "()" and R.key(x["args"][0]) == f["params"][1]["name"])]
             writes = []
             for x, p in R.find(f["body"], lambda x: x.get("k") in ("Assign", "Call") and x.get("op") == "=" and R.key(x.get("l") or x["args"][0]).startswith(f["params"][0]["name"] + "(")):
